@@ -387,19 +387,30 @@ func (tr *Tr) mutatesOf(key string) []bool {
 		}
 		return -1
 	}
+	// the pointer written by an assignment to l: *p = v, (*p)[i] = v
+	written := func(l ast.Expr) ast.Expr {
+		l = unparen(l)
+		if ix, ok := l.(*ast.IndexExpr); ok {
+			l = unparen(ix.X)
+		}
+		if s, ok := l.(*ast.StarExpr); ok {
+			return s.X
+		}
+		return nil
+	}
 	ast.Inspect(d.Body, func(n ast.Node) bool {
 		switch n := n.(type) {
 		case *ast.AssignStmt:
 			for _, l := range n.Lhs {
-				if s, ok := l.(*ast.StarExpr); ok {
-					if i := idxOf(s.X); i >= 0 {
+				if x := written(l); x != nil {
+					if i := idxOf(x); i >= 0 {
 						res[i] = true
 					}
 				}
 			}
 		case *ast.IncDecStmt:
-			if s, ok := n.X.(*ast.StarExpr); ok {
-				if i := idxOf(s.X); i >= 0 {
+			if x := written(n.X); x != nil {
+				if i := idxOf(x); i >= 0 {
 					res[i] = true
 				}
 			}
@@ -586,6 +597,8 @@ func (tr *Tr) stmts(list []ast.Stmt, env *Env, k cont) string {
 		return tr.typeSwitchStmt(s, env, rest)
 	case *ast.RangeStmt:
 		return tr.rangeStmt(s, env, rest)
+	case *ast.ForStmt:
+		return tr.forStmt(s, env, rest)
 	case *ast.BranchStmt:
 		if s.Label != nil {
 			tr.fail(s, "labelled %s", s.Tok)
@@ -867,6 +880,16 @@ func (tr *Tr) assignStmt(s *ast.AssignStmt, env *Env, next ast.Stmt, rest cont) 
 		tr.fail(s, "assignment operator %s", s.Tok)
 	}
 	define := s.Tok == token.DEFINE
+	// (*p)[i] = v
+	if len(s.Lhs) == 1 && len(s.Rhs) == 1 && !define {
+		if ix, ok := unparen(s.Lhs[0]).(*ast.IndexExpr); ok {
+			// Go: the index operand, then the right-hand side, then the store
+			iv := tr.storeIndex(s, ix, env)
+			return tr.expr(s.Rhs[0], env, func(e *Env, v Val) string {
+				return tr.indexStore(s, ix, iv, v, e, rest)
+			})
+		}
+	}
 	// x, ok := v.(T)
 	if len(s.Lhs) == 2 && len(s.Rhs) == 1 {
 		if ta, ok := unparen(s.Rhs[0]).(*ast.TypeAssertExpr); ok && ta.Type != nil {
@@ -937,6 +960,13 @@ func (tr *Tr) assignStmt(s *ast.AssignStmt, env *Env, next ast.Stmt, rest cont) 
 // x op= y, x++, x--
 func (tr *Tr) assignOp(at ast.Node, lhs ast.Expr, op token.Token, rhs ast.Expr, env *Env, rest cont) string {
 	bin := &ast.BinaryExpr{X: lhs, OpPos: at.Pos(), Op: op, Y: rhs}
+	if ix, ok := unparen(lhs).(*ast.IndexExpr); ok {
+		// (*p)[i] op= v: the element is read (panic when out of range), then stored
+		iv := tr.storeIndex(at, ix, env)
+		return tr.expr(bin, env, func(e *Env, v Val) string {
+			return tr.indexStore(at, ix, iv, v, e, rest)
+		})
+	}
 	return tr.expr(bin, env, func(e *Env, v Val) string {
 		return tr.bindAll(at, []ast.Expr{lhs}, []Val{v}, false, nil, e, rest)
 	})
@@ -1392,6 +1422,9 @@ func (tr *Tr) assignedIn(body *ast.BlockStmt, env *Env) []*Binding {
 	var order []*Binding
 	add := func(e ast.Expr) {
 		e = unparen(e)
+		if ix, ok := e.(*ast.IndexExpr); ok {
+			e = unparen(ix.X) // (*p)[i] = v writes the pointee of p
+		}
 		if s, ok := e.(*ast.StarExpr); ok {
 			e = unparen(s.X)
 		}
@@ -1525,6 +1558,272 @@ func (tr *Tr) rangeStmt(s *ast.RangeStmt, env *Env, rest cont) string {
 		r := tr.fresh("r")
 		return fmt.Sprintf("match range_loop (R := %s) (fun %s %s %s =>\n%s) %s %s with\n| Continue %s | Break %s =>\n%s\n| Done %s => %s\nend",
 			paren(tr.fn.fullRet), iName, vName, bind, ind(ind(bodyText)), paren(xs.term), initTuple,
+			bindAfter, bindAfter, ind(ind(restText)), r, tr.leave(outerLoop, r))
+	})
+}
+
+// ---------- element assignment through a pointer to a slice ----------
+
+// indexStore: (*p)[i] = v where p is a pointer parameter (or a local pointer to a fresh
+// allocation) to a slice: the pointee is replaced by set_idx pointee i v; an index out of
+// range is Panic site_index.  Slices are values in the translation, so the function must
+// not hold another name of the backing array: checkElemWrites refuses every use of p
+// other than (*p)[i] and len(*p).
+func (tr *Tr) indexStore(at ast.Node, ix *ast.IndexExpr, i Val, v Val, env *Env, rest cont) string {
+	pb := tr.storeTarget(at, ix, env)
+	lt := pb.typ.Elem
+	it := i.term
+	if i.typ.isUnsigned() {
+		it = "Z.of_N " + paren(i.term)
+	}
+	v = tr.coerce(tr.use(v, at), elemType(lt), at)
+	cur := tr.use(env.val[pb], at)
+	name := tr.fresh(pb.goName)
+	nv := cur
+	nv.term = name
+	nv.cst = nil
+	return fmt.Sprintf("match set_idx %s %s %s with\n| Some %s =>\n%s\n| None => %s\nend",
+		paren(cur.term), paren(it), paren(v.term), name, ind(ind(rest(env.set(pb, nv)))), tr.panicOut(env, "site_index"))
+}
+
+// storeIndex: the index of an element assignment, a total expression evaluated where the
+// statement starts (before the right-hand side, as in Go).
+func (tr *Tr) storeIndex(at ast.Node, ix *ast.IndexExpr, env *Env) Val {
+	tr.storeTarget(at, ix, env)
+	i, pure := tr.tryPure(ix.Index, env)
+	if !pure {
+		tr.fail(ix.Index, "index of an element assignment that can panic or calls a function")
+	}
+	i = tr.use(i, ix.Index)
+	if i.typ.K == KUntypedInt {
+		i = tr.coerce(i, tInt, ix.Index)
+	}
+	if !i.typ.isInteger() {
+		tr.fail(ix.Index, "index of type %v", i.typ)
+	}
+	return i
+}
+
+// storeTarget: the pointer p of (*p)[i] = v, with the checks on it.
+func (tr *Tr) storeTarget(at ast.Node, ix *ast.IndexExpr, env *Env) *Binding {
+	star, ok := unparen(ix.X).(*ast.StarExpr)
+	if !ok {
+		tr.fail(at, "assignment to an element of %s (only (*p)[i] = v through a pointer parameter: a slice variable may share its backing array)", exprStr(ix.X))
+	}
+	id, ok := unparen(star.X).(*ast.Ident)
+	if !ok {
+		tr.fail(at, "assignment to an element through a pointer expression")
+	}
+	pb, exists := env.scope[id.Name]
+	if !exists || !(pb.ptrParam || pb.ptrLocal) || pb.typ.K != KPtr {
+		tr.fail(at, "assignment to an element through %s, which is not a pointer parameter", id.Name)
+	}
+	if pb.ptrParam && !tr.isMutated(pb) {
+		tr.fail(at, "internal: write through %s not found by the pre-pass", id.Name)
+	}
+	lt := pb.typ.Elem
+	if lt.K != KSlice || isAtomList(lt) {
+		tr.fail(at, "assignment to an element of a value of type %v", lt)
+	}
+	tr.checkElemWrites(id.Name, at)
+	return pb
+}
+
+// checkElemWrites: in a function that assigns to (*p)[i], the name p may occur only as
+// (*p)[i] (read or written) and len(*p): any other use (a copy of *p, a range over it, a
+// slice of it, passing p on) could create or observe a second name of the backing array,
+// which the value representation of slices does not track.
+func (tr *Tr) checkElemWrites(name string, at ast.Node) {
+	var stack []ast.Node
+	ast.Inspect(tr.fn.decl.Body, func(n ast.Node) bool {
+		if n == nil {
+			stack = stack[:len(stack)-1]
+			return true
+		}
+		stack = append(stack, n)
+		id, ok := n.(*ast.Ident)
+		if !ok || id.Name != name {
+			return true
+		}
+		// parents, skipping parentheses
+		up := func(from int) (int, ast.Node) {
+			j := from - 1
+			for j >= 0 {
+				if _, isParen := stack[j].(*ast.ParenExpr); !isParen {
+					return j, stack[j]
+				}
+				j--
+			}
+			return -1, nil
+		}
+		j, p1 := up(len(stack) - 1)
+		star, isStar := p1.(*ast.StarExpr)
+		if !isStar {
+			tr.fail(id, "use of %s other than (*%s)[i] and len(*%s) in a function that assigns to (*%s)[i] (sharing of the backing array is not represented)", name, name, name, name)
+		}
+		_ = star
+		j2, p2 := up(j)
+		switch p := p2.(type) {
+		case *ast.IndexExpr:
+			if containsNode(p.X, stack[j]) {
+				return true
+			}
+		case *ast.CallExpr:
+			if f, ok := p.Fun.(*ast.Ident); ok && f.Name == "len" && len(p.Args) == 1 {
+				return true
+			}
+		}
+		_ = j2
+		tr.fail(id, "use of *%s other than (*%s)[i] and len(*%s) in a function that assigns to (*%s)[i] (sharing of the backing array is not represented)", name, name, name, name)
+		return true
+	})
+}
+
+func containsNode(root ast.Node, target ast.Node) bool {
+	found := false
+	ast.Inspect(root, func(n ast.Node) bool {
+		if n == target {
+			found = true
+		}
+		return !found
+	})
+	return found
+}
+
+// ---------- the descending three-clause loop ----------
+
+// forStmt: for i := e; i >= 0; i-- { body } where the body does not assign i:
+// down_loop body e state (GoSem.v) runs the body for i = e, e-1, ..., 0 (not at all when
+// e < 0); continue goes to the next i, break leaves the loop.  Every other for statement
+// is refused.
+func (tr *Tr) forStmt(s *ast.ForStmt, env *Env, rest cont) string {
+	bad := func(n ast.Node, what string) {
+		if n == nil {
+			n = s
+		}
+		tr.fail(n, "for statement: %s (only `for i := e; i >= 0; i--` with i not assigned in the body)", what)
+	}
+	init, ok := s.Init.(*ast.AssignStmt)
+	if !ok || init.Tok != token.DEFINE || len(init.Lhs) != 1 || len(init.Rhs) != 1 {
+		bad(s.Init, "init clause")
+	}
+	iv, ok := init.Lhs[0].(*ast.Ident)
+	if !ok || iv.Name == "_" {
+		bad(s.Init, "init clause")
+	}
+	isI := func(e ast.Expr) bool { id, ok := unparen(e).(*ast.Ident); return ok && id.Name == iv.Name }
+	isLit := func(e ast.Expr, v string) bool {
+		l, ok := unparen(e).(*ast.BasicLit)
+		return ok && l.Kind == token.INT && l.Value == v
+	}
+	cond, ok := unparen(s.Cond).(*ast.BinaryExpr)
+	if s.Cond == nil || !ok || !(cond.Op == token.GEQ && isI(cond.X) && isLit(cond.Y, "0") || cond.Op == token.LEQ && isLit(cond.X, "0") && isI(cond.Y)) {
+		bad(s.Cond, "condition")
+	}
+	switch post := s.Post.(type) {
+	case *ast.IncDecStmt:
+		if post.Tok != token.DEC || !isI(post.X) {
+			bad(s.Post, "post clause")
+		}
+	case *ast.AssignStmt:
+		if post.Tok != token.SUB_ASSIGN || len(post.Lhs) != 1 || len(post.Rhs) != 1 || !isI(post.Lhs[0]) || !isLit(post.Rhs[0], "1") {
+			bad(s.Post, "post clause")
+		}
+	default:
+		bad(s.Post, "post clause")
+	}
+	ast.Inspect(s.Body, func(n ast.Node) bool {
+		switch n := n.(type) {
+		case *ast.AssignStmt:
+			for _, l := range n.Lhs {
+				if isI(l) {
+					bad(n, "the loop variable is assigned in the body")
+				}
+			}
+		case *ast.IncDecStmt:
+			if isI(n.X) {
+				bad(n, "the loop variable is assigned in the body")
+			}
+		case *ast.UnaryExpr:
+			if n.Op == token.AND && isI(n.X) {
+				bad(n, "the address of the loop variable is taken")
+			}
+		case *ast.RangeStmt:
+			if n.Tok == token.ASSIGN && (n.Key != nil && isI(n.Key) || n.Value != nil && isI(n.Value)) {
+				bad(n, "the loop variable is assigned in the body")
+			}
+		case *ast.FuncLit:
+			bad(n, "function literal in the body")
+		}
+		return true
+	})
+	return tr.expr(init.Rhs[0], env, func(e0 *Env, start Val) string {
+		start = tr.use(start, init.Rhs[0])
+		if start.typ.K == KUntypedInt {
+			start = tr.coerce(start, tInt, init.Rhs[0])
+		}
+		if !start.typ.isSigned() {
+			bad(s.Init, fmt.Sprintf("loop variable of type %v", start.typ))
+		}
+		carried := tr.assignedIn(s.Body, e0)
+		for _, b := range carried {
+			tr.use(e0.val[b], s)
+		}
+		outerLoop := &Env{loop: e0.loop}
+		initTuple := tr.carriedTuple(&Env{loop: &loopCtx{carried: carried}, val: e0.val})
+		be := e0.push()
+		be.loop = &loopCtx{carried: carried}
+		be.inSwitch = false
+		iName := tr.fresh(iv.Name)
+		var stNames []string
+		for _, b := range carried {
+			n := tr.fresh(b.goName)
+			stNames = append(stNames, n)
+			v := be.val[b]
+			v.term = n
+			v.cst = nil
+			be.val[b] = v
+		}
+		ib := &Binding{goName: iv.Name, typ: start.typ, depth: be.depth}
+		be = be.declare(ib, Val{term: iName, typ: start.typ})
+		stPat := func(names []string) string {
+			switch len(names) {
+			case 0:
+				return "_"
+			case 1:
+				return names[0]
+			}
+			return "'(" + strings.Join(names, ", ") + ")"
+		}
+		bodyText := tr.stmts(s.Body.List, be.push(), func(e *Env) string {
+			return "Continue " + tr.carriedTuple(e)
+		})
+		var afterNames []string
+		ae := e0.clone()
+		for _, b := range carried {
+			n := tr.fresh(b.goName)
+			afterNames = append(afterNames, n)
+			v := ae.val[b]
+			v.term = n
+			v.cst = nil
+			ae.val[b] = v
+		}
+		restText := rest(ae)
+		var bind, bindAfter string
+		switch len(carried) {
+		case 0:
+			bind, bindAfter = "_", "_"
+		case 1:
+			bind, bindAfter = stNames[0], afterNames[0]
+		default:
+			st, sa := tr.fresh("st"), tr.fresh("st")
+			bodyText = fmt.Sprintf("let %s := %s in\n%s", stPat(stNames), st, bodyText)
+			restText = fmt.Sprintf("let %s := %s in\n%s", stPat(afterNames), sa, restText)
+			bind, bindAfter = st, sa
+		}
+		r := tr.fresh("r")
+		return fmt.Sprintf("match down_loop (R := %s) (fun %s %s =>\n%s) %s %s with\n| Continue %s | Break %s =>\n%s\n| Done %s => %s\nend",
+			paren(tr.fn.fullRet), iName, bind, ind(ind(bodyText)), paren(start.term), initTuple,
 			bindAfter, bindAfter, ind(ind(restText)), r, tr.leave(outerLoop, r))
 	})
 }
